@@ -104,6 +104,8 @@ class OssSim final : public Engine {
   std::map<PictID, const void*> execWitness;                       // translations pointer seen last
   std::map<PictID, std::map<PictID, change::Hash>> basis;          // p -> parent -> coreHash seen at p's last execution
   int newSrcCounter{ 0 };
+  int restartedRecently{ 0 };
+  std::map<PictID, std::vector<PictID>> parentModel;               // reference view of the parent relation (from InsertOperation calls / the loaded document)
 
   std::vector<PictID> Picts() const { std::vector<PictID> v; for (const auto& p : *S) v.push_back(p.uid); std::sort(v.begin(), v.end()); return v; }
   std::optional<PictID> Pict(int64_t i) const { const auto v = Picts(); if (v.empty()) return std::nullopt; return v[static_cast<size_t>(i) % v.size()]; }
@@ -129,6 +131,14 @@ class OssSim final : public Engine {
       } else if (!parents.empty()) { c.Fail("C19", "base_with_parents", trig, "base pictogram has parents"); return; }
     }
     if (S->Grid().data().size() != S->size()) { c.Fail("C19", "grid_size", trig, "grid holds " + std::to_string(S->Grid().data().size()) + " cells for " + std::to_string(S->size()) + " pictograms"); return; }
+    // parent relation equals the reference view, and ChildrenOf is its inverse
+    for (const auto& p : *S) {
+      const auto parents = S->Graph().ParentsOf(p.uid); const auto it = parentModel.find(p.uid);
+      const std::vector<PictID> expect = it == parentModel.end() ? std::vector<PictID>{} : it->second;
+      if (parents != expect) { std::string a, b; for (auto x : parents) a += std::to_string(x) + " "; for (auto x : expect) b += std::to_string(x) + " "; c.Fail("C19", "parents_changed", trig, "pictogram " + std::to_string(p.uid) + " reports parents [" + a + "] but was created / loaded with [" + b + "]"); return; }
+      for (auto q : parents) { const auto ch = S->Graph().ChildrenOf(q); if (std::find(ch.begin(), ch.end(), p.uid) == ch.end()) { c.Fail("C19", "children_not_inverse", trig, "ChildrenOf(" + std::to_string(q) + ") misses " + std::to_string(p.uid)); return; } }
+      for (auto ch : S->Graph().ChildrenOf(p.uid)) { const auto pp = S->Graph().ParentsOf(ch); if (std::find(pp.begin(), pp.end(), p.uid) == pp.end()) { c.Fail("C19", "children_not_inverse", trig, "ChildrenOf(" + std::to_string(p.uid) + ") lists " + std::to_string(ch) + " which does not have it as a parent"); return; } }
+    }
     for (const auto& [child, parent] : S->Graph().EdgeList()) if (!S->Contains(child) || !S->Contains(parent)) { c.Fail("C19", "edge_to_missing", trig, "parent relation names a missing pictogram"); return; }
     // acyclic parent relation
     std::map<PictID, int> st; bool cyc = false;
@@ -179,7 +189,7 @@ public:
   std::vector<std::string> Properties() const override { return { "C19", "C12" }; }
   uint64_t DefaultRuns(const std::string&, bool thorough) const override { return thorough ? 120000 : 4000; }
   Cfg GenCfg(Rng& r, const std::string&, bool) override {
-    Cfg c; c["steps"] = r.Range(10, 50); c["max_picts"] = r.Range(3, 7);
+    Cfg c; c["steps"] = r.Range(10, 50); c["max_picts"] = r.Range(3, 9);
     c["uid_policy"] = r.Range(0, 4); c["uid_range"] = r.Range(8, 24);
     c["expr_depth"] = r.Range(1, 2); c["p_mutant"] = r.Pct(60) ? 0 : r.Range(3, 15);
     c["p_fault"] = r.Pct(35) ? 0 : r.Range(2, 15);
@@ -193,7 +203,7 @@ public:
     Environment::Instance().SetSourceManager(std::move(m));
     S = std::make_unique<oss::OSSchema>();
     if (c.C("domain")) S->Src().ossDomain = u8"dom/";
-    hasSavedOss = false; savedOss.clear(); execWitness.clear(); basis.clear(); newSrcCounter = 0;
+    hasSavedOss = false; savedOss.clear(); execWitness.clear(); basis.clear(); newSrcCounter = 0; parentModel.clear(); restartedRecently = 0;
   }
   void Destroy() override {
     S.reset();
